@@ -24,7 +24,7 @@ def plan(tier):
                  (5, [("bounded", 1, 1, 2)], CONF_Q[::2])]
     else:
         specs = [(3, [("dense", 1, 4), ("bounded", 2, 5, 5)], CONF_T), (4, [("dense", 1, 3)], CONF_Q),
-                 (3, [("near", 2, 3)], CONF_Q), (4, [("near", 2, 2)], CONF_Q[::2]),
+                 (3, [("near", 2, 2)], CONF_Q), (4, [("near", 2, 2)], CONF_Q[::2]),
                  (5, [("dense", 1, 1), ("bounded", 1, 2, 3)], CONF_Q)]
     tasks, descs = [], []
     for N, regimes, conf in specs:
